@@ -65,8 +65,9 @@ class TopocentricFrame(frames.Frame):
             event_classes = tuple(listener.event for listener in sta_list)
 
         for point in orb.iter(**kwargs):
-            point.frame = self
-            point.form = "spherical"
+            # The listeners keep a reference to the last point they were shown,
+            # so the conversion is made on a copy
+            point = point.copy(frame=self, form="spherical")
 
             # Not very clean !
             if point.phi < 0 and not isinstance(point.event, event_classes):
